@@ -16,6 +16,10 @@ EXPLANATION = (
     'and not inner complemented once (C01.R5), annulus area = outer.area − inner.area with the component area formulas, '
     'annulus box = outer box (C04.R3). Not decided: commuting with conversion numerically; nested expressions are covered '
     'because the rules are per class, not per depth.')
+EXPLANATION_ADDED2 = (" (R6) a compound region owns its metadata: its meta/visual are objects distinct from both operands' (evaluation of the compound constructors and of the operators that build them).")
+EXPLANATION += EXPLANATION_ADDED2
+EXPLANATION_ADDED3 = (' (R7) the compound and annulus classes remember no membership / box / mask / area across calls (shared memo analysis, see C01.R8): an operand can be moved or replaced afterwards.')
+EXPLANATION += EXPLANATION_ADDED3
 TRUSTED = ['operator.and_/or_/xor on boolean arrays are element-wise and/or/xor']
 ASSUMPTIONS = ['real arithmetic']
 
@@ -156,6 +160,28 @@ def r6(ctx):
             ctx.ok(f'{cn}.__init__', 'meta and visual of the compound are objects of its own (copies)')
 
 
+def r7(ctx):
+    """a compound / an annulus answers from its *current* operands and parameters: membership, box, mask, area of the compound
+    and annulus classes (and the properties they read) are not remembered across calls — an operand can be moved or
+    replaced afterwards, and `(a | b).bounding_box` must follow it (c01.memoised_geometry on these classes)."""
+    from .c01 import memoised_geometry
+    m = ctx.model
+    n = 0
+    for ci in m.region_classes('pixel') + m.region_classes('sky'):
+        if not (ci.name.startswith('Compound') or 'Annulus' in ci.name):
+            continue
+        n += 1
+        memo = memoised_geometry(m, ci, rule='C08.R7')
+        if memo:
+            name, why, f = memo[0]
+            ctx.bad(ci.name, f'memoised:{name}',
+                    f'{ci.name}.{name} {why}: after an operand (or a radius) is changed or replaced the remembered result still '
+                    'describes the old operands, so the compound no longer is the set operation on its members', f.loc())
+        else:
+            ctx.ok(ci.name, 'membership / box / mask / area are recomputed from the current operands on every use')
+    ctx.need(n >= 8, 'compound and annulus classes', f'only {n} classes found')
+
+
 RULES = [
     RuleDef('R1', 'operator table: &,|,^ -> Compound(self, other, and_/or_/xor)', r1, 6),
     RuleDef('R2', 'compound membership = operator(members), one include complement', r2, 2),
@@ -163,4 +189,5 @@ RULES = [
     RuleDef('R4', 'conversion and rotation are component-wise and keep the operator', r4, 14),
     RuleDef('R5', 'annulus algebra, area and box', r5, 12),
     RuleDef('R6', 'a compound has meta/visual objects of its own (not the first operand\'s)', r6, 2),
+    RuleDef('R7', 'compound and annulus answers are recomputed from the current operands (nothing remembered)', r7, 8),
 ]
